@@ -53,9 +53,16 @@ def binom_pmf(n):
     return [Fraction(math.comb(n - 1, j), 2 ** (n - 1)) for j in range(n)]
 
 
-def ar1_params(ctx, kind):
+EDGES = [(2, 0.0, 1.0, 0.0), (2, -0.989, 1e-3, 5.0), (2, 0.989, 1e2, -100.0), (40, 0.989, 1e2, 100.0),
+         (40, -0.989, 1e-3, 0.0), (3, 0.5, 1.0, 1.0), (40, 0.0, 1.0, 1e6), (17, 0.7, 0.5, -0.3),
+         (5, -0.5, 2.0, 1.0), (39, 0.3, 1e-3, 1e-3)]
+
+
+def ar1_params(ctx, kind, k=0):
     """(n, rho, sigma, mu) from the property's quantifier domain"""
     r = ctx.rng
+    if kind == "edge":        # fixed corner cases of the quantifier's domain, every run
+        return EDGES[k % len(EDGES)]
     if kind == "dyadic":      # arithmetic of the recursion is exact in double
         n = r.randint(2, 7)
         rho = r.choice([-3, -2, -1, 0, 1, 2, 3]) / 4.0
@@ -134,11 +141,19 @@ def rouw_spec(ctx, n, rho, sigma, mu, P, y):
 
 def rouw_cases(ctx, cases):
     from quantecon.markov.approximation import rouwenhorst
-    plan = [("dyadic", ctx.n(12, 60)), ("small", ctx.n(14, 120)), ("wide", ctx.n(10, 80))]
+    plan = [("edge", len(EDGES)), ("dyadic", ctx.n(20, 150)), ("small", ctx.n(30, 400)), ("wide", ctx.n(20, 250))]
     for kind, cnt in plan:
-        for _ in range(cnt):
-            n, rho, sigma, mu = ar1_params(ctx, kind)
-            mc = rouwenhorst(n, rho, sigma, mu)
+        for k in range(cnt):
+            n, rho, sigma, mu = ar1_params(ctx, kind, k)
+            try:
+                mc = rouwenhorst(n, rho, sigma, mu)
+            except Exception as e:      # valid parameters: any exception is a violation, not a tool failure
+                ctx.spec_fail("rouwenhorst_raises", "%s: %s" % (type(e).__name__, e),
+                              {"op": "rouwenhorst", "n": n, "rho": rho, "sigma": sigma, "mu": mu,
+                               "rho_hex": float(rho).hex(), "sigma_hex": float(sigma).hex(), "mu_hex": float(mu).hex()})
+                cases.append(Case("C13 rouw mode=float n=%d rho=%s sigma=%s mu=%s" % (n, fx(rho), fx(sigma), fx(mu)),
+                                  "ERR:" + type(e).__name__, tag="rouw-float"))
+                continue
             P, y = np.asarray(mc.P), np.asarray(mc.state_values)
             ctx.count("rouw:" + kind)
             ctx.count("rouw:rho<0" if rho < 0 else "rouw:rho>=0")
@@ -211,6 +226,22 @@ def rouw_cases(ctx, cases):
                           nontrivial=False, tag="rouw-float"))
 
 
+def linspace_cases(ctx, cases):
+    """numpy.linspace (external, mirrored by the model because both grids are built with it)"""
+    r = ctx.rng
+    for _ in range(ctx.n(40, 400)):
+        n = r.choice([0, 1, 2, 3, 5, 8, 40]) if r.random() < 0.5 else r.randint(2, 40)
+        a = r.choice([r.uniform(-5, 5), -10.0 ** r.uniform(-3, 4), 0.0])
+        b = r.choice([-a, -a, r.uniform(-5, 5), a])
+        if a == b:
+            ctx.count("linspace:step==0")
+        if n <= 1:
+            ctx.count("linspace:n<=1")
+        y = np.linspace(a, b, n)
+        cases.append(Case("C13 linspace mode=float n=%d a=%s b=%s" % (n, fx(a), fx(b)), fxs(y),
+                          nontrivial=(n >= 3 and a != b), tag="linspace"))
+
+
 # ----------------------------------------------------------------------------
 # tauchen
 
@@ -261,13 +292,21 @@ def tauchen_spec(ctx, n, rho, sigma, mu, nstd, P, y):
 
 def tauchen_cases(ctx, cases):
     from quantecon.markov.approximation import tauchen
-    plan = [("dyadic", ctx.n(8, 40)), ("small", ctx.n(14, 100)), ("wide", ctx.n(6, 40))]
+    plan = [("edge", len(EDGES)), ("dyadic", ctx.n(12, 100)), ("small", ctx.n(24, 300)), ("wide", ctx.n(10, 120))]
     todo = []
     for kind, cnt in plan:
-        for _ in range(cnt):
-            n, rho, sigma, mu = ar1_params(ctx, kind)
-            nstd = ctx.rng.randint(1, 5)
-            mc = tauchen(n, rho, sigma, mu, nstd)
+        for k in range(cnt):
+            n, rho, sigma, mu = ar1_params(ctx, kind, k)
+            nstd = (1, 5, 3, 2, 4)[k % 5] if kind == "edge" else ctx.rng.randint(1, 5)
+            try:
+                mc = tauchen(n, rho, sigma, mu, nstd)
+            except Exception as e:      # valid parameters: any exception is a violation, not a tool failure
+                ctx.spec_fail("tauchen_raises", "%s: %s" % (type(e).__name__, e),
+                              {"op": "tauchen", "n": n, "rho": rho, "sigma": sigma, "mu": mu, "n_std": nstd,
+                               "rho_hex": float(rho).hex(), "sigma_hex": float(sigma).hex(), "mu_hex": float(mu).hex()})
+                cases.append(Case("C13 tauchen_args n=%d rho=%s sigma=%s nstd=%d" % (n, fx(rho), fx(sigma), nstd),
+                                  "ERR:" + type(e).__name__, tag="tauchen"))
+                continue
             P, y = np.asarray(mc.P), np.asarray(mc.state_values)
             ctx.count("tauchen:" + kind)
             ctx.count("tauchen:rho<0" if rho < 0 else "tauchen:rho>=0")
@@ -380,6 +419,9 @@ def gen_sequence(ctx):
     if not last_seen_before and r.random() < 0.8:
         X = X.copy()
         X[-1] = X[r.randrange(len(X) - 1)]
+    if r.random() < 0.06:                 # a fresh last value: a state that is never left
+        X = X.copy()
+        X[-1] = 77
     flat = X.reshape(len(X), -1)
     obs = [tuple(Fraction(v.item()) for v in row) for row in flat]
     return X, obs, kind
@@ -396,7 +438,7 @@ def model_P_bits(s):
 
 def estimate_cases(ctx, cases):
     from quantecon.markov.estimate import estimate_mc, _count_transition_frequencies
-    for _ in range(ctx.n(160, 1500)):
+    for _ in range(ctx.n(400, 5000)):
         X, obs, kind = gen_sequence(ctx)
         states, C, tot = brute_estimate(obs)
         n = len(states)
@@ -428,6 +470,9 @@ def estimate_cases(ctx, cases):
             ctx.count("estimate:ValueError(state never left)")
             if valid:
                 ctx.spec_fail("estimate_mc_raises", "ValueError on a sequence in which every state is left", rp)
+        except Exception as e:
+            impl = "ERR:" + type(e).__name__
+            ctx.spec_fail("estimate_mc_raises", "%s: %s" % (type(e).__name__, e), rp)
         # the integer kernel on the code's own inverse indices
         flat = X.reshape(len(X), -1)
         axis = 0 if X.ndim > 1 else None
@@ -454,7 +499,7 @@ def fit_cases(ctx, cases):
     from quantecon.markov.estimate import fit_discrete_mc
     from quantecon import _gridtools as gt
     r = ctx.rng
-    for _ in range(ctx.n(120, 1000)):
+    for _ in range(ctx.n(300, 3000)):
         d = r.randint(1, 3)
         grids = []
         for _i in range(d):
@@ -523,6 +568,9 @@ def fit_cases(ctx, cases):
             ctx.count("fit:ValueError(state never left)")
             if valid and ok:
                 ctx.spec_fail("fit_raises", "ValueError on a sequence in which every state is left", rp)
+        except Exception as e:
+            impl = "idx=%s ERR:%s" % (ints(idx_code), type(e).__name__)
+            ctx.spec_fail("fit_raises", "%s: %s" % (type(e).__name__, e), rp)
 
         def cmp_f(mo, im):
             a = kvs(mo)
@@ -555,8 +603,90 @@ def run(ctx):
         "rounding envelopes (assumed, not proved): rouwenhorst P 1e-12 abs vs the exact Rat recursion, grids 16u*max|y|; "
         "tauchen P 1e-13 vs the model with an independent erfc; spec oracles 1e-12 (probabilities), 1e-9 relative (moments)"]
     cases = []
+    linspace_cases(ctx, cases)
     rouw_cases(ctx, cases)
     tauchen_cases(ctx, cases)
     estimate_cases(ctx, cases)
     fit_cases(ctx, cases)
     ctx.run_cases(cases)
+
+
+# ----------------------------------------------------------------------------
+# ./check C13 --replay <file>: re-run one recorded input against the real code
+
+
+class _ReplayCtx:
+    def __init__(self):
+        self.fails = []
+
+    def spec_fail(self, key, what, replay):
+        self.fails.append((key, what))
+
+    def count(self, *a, **k):
+        pass
+
+
+def replay(data):
+    warnings.simplefilter("ignore")
+    rp = data.get("replay") or {}
+    op = rp.get("op")
+    c = _ReplayCtx()
+    if op in ("rouwenhorst", "tauchen"):
+        from quantecon.markov.approximation import rouwenhorst, tauchen
+        n = int(rp["n"])
+        rho, sigma, mu = (float.fromhex(rp[k + "_hex"]) for k in ("rho", "sigma", "mu"))
+        try:
+            if op == "rouwenhorst":
+                mc = rouwenhorst(n, rho, sigma, mu)
+                rouw_spec(c, n, rho, sigma, mu, np.asarray(mc.P), np.asarray(mc.state_values))
+            else:
+                mc = tauchen(n, rho, sigma, mu, int(rp["n_std"]))
+                tauchen_spec(c, n, rho, sigma, mu, int(rp["n_std"]), np.asarray(mc.P), np.asarray(mc.state_values))
+            print("state_values =", np.asarray(mc.state_values).tolist())
+            print("P =", np.asarray(mc.P).tolist())
+        except Exception as e:
+            c.fails.append((op + "_raises", "%s: %s" % (type(e).__name__, e)))
+    elif op == "estimate_mc":
+        from quantecon.markov.estimate import estimate_mc
+        X = np.array(rp["X"])
+        obs = [tuple(Fraction(v.item()) for v in row) for row in X.reshape(len(X), -1)]
+        states, C, tot = brute_estimate(obs)
+        print("expected states =", [[float(v) for v in s] for s in states])
+        print("expected counts =", C)
+        try:
+            mc = estimate_mc(X)
+            P = np.asarray(mc.P)
+            print("state_values =", np.asarray(mc.state_values).tolist())
+            print("P =", P.tolist())
+            n = len(states)
+            if not all(t > 0 for t in tot):
+                c.fails.append(("estimate_mc_unleft_state", "a state that is never left was accepted"))
+            elif P.shape != (n, n) or any(float(P[i, j]) != C[i][j] / tot[i] for i in range(n) for j in range(n)):
+                c.fails.append(("estimate_mc_P", "P[i,j] != N_ij / N_i"))
+        except Exception as e:
+            print("raised %s: %s" % (type(e).__name__, e))
+            if all(t > 0 for t in tot) or not isinstance(e, ValueError):
+                c.fails.append(("estimate_mc_raises", "%s: %s" % (type(e).__name__, e)))
+    elif op == "fit_discrete_mc":
+        from quantecon.markov.estimate import fit_discrete_mc
+        from quantecon import _gridtools as gt
+        X = [[Fraction(v) for v in row] for row in rp["X"]]
+        grids = [[Fraction(v) for v in g] for g in rp["grids"]]
+        tg = tuple(np.array([float(v) for v in g]) for g in grids)
+        Xa = np.array([[float(v) for v in row] for row in X])
+        idx = [int(k) for k in np.atleast_1d(gt.cartesian_nearest_index(Xa, tg, order=rp["order"]))]
+        print("nearest indices (code) =", idx)
+        states, C, tot = brute_estimate(idx)
+        print("expected visited indices =", states, "counts =", C)
+        try:
+            mc = fit_discrete_mc(Xa, tg, order=rp["order"])
+            print("state_values =", np.asarray(mc.state_values).tolist())
+            print("P =", np.asarray(mc.P).tolist())
+        except Exception as e:
+            print("raised %s: %s" % (type(e).__name__, e))
+    else:
+        print("nothing to replay in", sorted(rp))
+        return 2
+    for key, what in c.fails:
+        print("VIOLATION property=C13 %s: %s" % (key, what))
+    return 1 if c.fails else 0
